@@ -399,6 +399,11 @@ export class TypeGen {
         const names = this.namesOf("strLits");
         return names.length ? A.util("Exclude", [A.ref(r.pick(names)), this.strLit()]) : A.util("Exclude", [A.kw("boolean"), A.lit(true)]);
       }],
+      // any named (possibly recursive) type through the semantic path: Exclude<N | null, null>
+      [this.decls.some((d) => d.d === "alias" && !(d.params || []).length && d.name.startsWith("R")) ? 3 : 0, () => {
+        const d = r.pick(this.decls.filter((d) => d.d === "alias" && !(d.params || []).length && d.name.startsWith("R")));
+        return A.util("Exclude", [A.union([A.ref(d.name), A.kw("null")]), A.kw("null")]);
+      }],
     ])();
   }
   discUnion(depth) {
@@ -574,6 +579,14 @@ export class TypeGen {
           [1, () => A.obj([A.prop("l", self, true), A.prop("r", self, true), A.prop("kind", A.lit("node"))])],
           [f.tuples ? 1 : 0, () => A.tuple([this.scalarLeaf()], self)],
           [1, () => A.union([A.obj([A.prop("kind", A.lit("leaf")), A.prop("v", this.scalarLeaf())]), A.obj([A.prop("kind", A.lit("node")), A.prop("kids", A.arr(self))])])],
+          // aliases whose body is directly a Set / Map that leads back to the alias
+          [f.nonJson ? 1.5 : 0, () => r.wpick([
+            [2, () => ({ k: "set", el: self })],
+            [2, () => ({ k: "set", el: A.union([self, this.scalarLeaf()]) })],
+            [2, () => ({ k: "set", el: A.obj([A.prop("label", A.kw("string")), A.prop("below", self)]) })],
+            [2, () => ({ k: "map", key: A.kw("string"), val: self })],
+            [1, () => ({ k: "map", key: A.kw("string"), val: A.union([self, A.kw("null")]) })],
+          ])()],
         ])();
         return tryAdd({ d: "alias", name, params: [], t, doc });
       }
